@@ -145,6 +145,10 @@ def api_fairness(d, args):
         for m in ("between_groups", "to_overall"):
             kw = {} if fn.endswith("group_min") else {"method": m}
             out[fn + ":" + m] = canon(getattr(M, fn)(args["y"], args["p"], sensitive_features=args["g"], sample_weight=args["w"], **kw))
+    # the two base metrics that take every container themselves (through utils/_input_manipulations.py) called directly, with no
+    # MetricFrame in between that would hand them fresh arrays.  (The four rates pass y to scikit-learn as given: 1-D only, not in scope.)
+    for fn in ("selection_rate", "mean_prediction"):
+        out["base:" + fn] = canon(getattr(M, fn)(args["y"], args["p"], sample_weight=args["w"]))
     return out
 
 
